@@ -43,7 +43,7 @@ def handlerFor (prop : String) : Option (List String → String) :=
   | "C11" => some (fun f => match f with | [_, _, n, _] => s!"n={n}" | _ => "bad-case")
   | "C14" => some Rt.handle
   | "C06" => some Rt.handle
-  | "C25" => some Rt.handle
+  | "C25" => some (fun f => match f with | "os" :: _ => C19.handle f | _ => Rt.handle f)
   | "C26" => some Rt.handle
   | _ => none
 
